@@ -66,3 +66,87 @@ var LexCorpus = []LexGrammar{
 	{"L04", "!ws : ' ' | '\\t' | '\\n' | '\\r' ;\nid : 'a'-'z' {'a'-'z'} ;\n!comment : '/' '/' {.} '\\n' ;\ndiv : '/' ;\n", "white space, line comments and a token sharing their prefix"},
 	{"L05", "u : '\\u00e9' | '\\u20ac' | '\\U0001F600' ;\nw : '\\u0100'-'\\uffff' 'x' ;\n!nl : '\\n' ;\n", "multi-byte runes, ranges over the BMP, newline ignored"},
 }
+
+func init() {
+	Register("C16", checkC16)
+	Register("C17", checkC17)
+}
+
+func (c *Ctx) atLexTarget() *Target {
+	g, err := c.Generate("atlex", atLexGrammar)
+	if err != nil || g.Exit != 0 {
+		c.Inconclusive = append(c.Inconclusive, fmt.Sprintf("gocc failed on the abstract-table grammar: %v", err))
+		return nil
+	}
+	return g.Target("lexer", "genlexer/at.go")
+}
+
+func (c *Ctx) lexCorpusTargets() map[string]*Target {
+	out := map[string]*Target{}
+	for _, lg := range LexCorpus {
+		gg, err := c.Generate("lex_"+lg.Name, lg.Text)
+		if err != nil || gg.Exit != 0 {
+			c.Inconclusive = append(c.Inconclusive, fmt.Sprintf("gocc failed on corpus grammar %s: %v", lg.Name, err))
+			continue
+		}
+		out[lg.Name] = gg.Target("lexer", "genlexer/at.go")
+	}
+	return out
+}
+
+func (c *Ctx) lexResetJobs() []Job {
+	var jobs []Job
+	maxN := 3
+	if !c.Quick() {
+		maxN = 5
+	}
+	if t := c.atLexTarget(); t != nil {
+		for n := 1; n <= maxN; n++ {
+			jobs = append(jobs, Job{
+				Name:     fmt.Sprintf("lexer-reset inductive N=%d", n),
+				Target:   t,
+				Abstract: true,
+				Run:      SymRun{Harness: "VerifC16Reset", Params: map[string]int{"N": n, "K": 2, "INDUCTIVE": 1}, LoopBound: 16, LoopBounds: map[string]int{"Scan": n + 3}},
+				Bounds:   fmt.Sprintf("abstract tables (<=4 states), every source of %d bytes, a lexer object with ARBITRARY pos/line/column, Reset, then 2 Scan calls against a fresh lexer", n),
+			})
+			jobs = append(jobs, Job{
+				Name:     fmt.Sprintf("lexer-reset history N=%d", n),
+				Target:   t,
+				Abstract: true,
+				Run:      SymRun{Harness: "VerifC16Reset", Params: map[string]int{"N": n, "K": 2, "INDUCTIVE": 0, "J": 2}, LoopBound: 16, LoopBounds: map[string]int{"Scan": n + 3}},
+				Bounds:   fmt.Sprintf("abstract tables (<=4 states), every source of %d bytes, 2 Scan calls, Reset, then 2 Scan calls against a fresh lexer", n),
+			})
+		}
+	}
+	for name, t := range c.lexCorpusTargets() {
+		jobs = append(jobs, Job{
+			Name:   fmt.Sprintf("lexer-reset history %s N=%d", name, 2),
+			Target: t,
+			Run:    SymRun{Harness: "VerifC16Reset", Params: map[string]int{"N": 2, "K": 2, "ABSTRACT": 0, "INDUCTIVE": 0, "J": 1}, LoopBound: 16, LoopBounds: map[string]int{"Scan": 5}},
+			Bounds: fmt.Sprintf("corpus lexer %s (real tables), every source of 2 bytes, one Scan, Reset, 2 Scan calls against a fresh lexer", name),
+		})
+	}
+	return jobs
+}
+
+func checkC16(c *Ctx) {
+	jobs := c.lexResetJobs()
+	c.BoundsText = append(c.BoundsText, "lexer: inductive form of 'whatever happened before': a Lexer object on the source with ARBITRARY pos/line/column, then Reset(), compared token by token (type, literal, offset, line, column) with NewLexer on the same source; abstract tables cover every lexer with <= 4 states")
+	c.RunJobs(jobs, 4)
+}
+
+func checkC17(c *Ctx) {
+	var jobs []Job
+	if t := c.atLexTarget(); t != nil {
+		for n := 1; n <= 3; n++ {
+			jobs = append(jobs, Job{
+				Name:   fmt.Sprintf("lexer-writes N=%d", n),
+				Target: t,
+				Run:    SymRun{Harness: "VerifC17Scan", Params: map[string]int{"N": n, "K": 2}, LoopBound: 16, LoopBounds: map[string]int{"Scan": n + 3}},
+				Bounds: fmt.Sprintf("abstract tables, every source of %d bytes: NewLexer, 2 Scan, Reset, Scan; every store checked", n),
+			})
+		}
+	}
+	c.BoundsText = append(c.BoundsText, "non-interference: every store executed by NewLexer/Scan/Reset on abstract tables and symbolic input must target an object allocated by the calling goroutine's own calls (obligation: path condition AND 'target existed before the calls' is unsat); with no writes to shared state all shared accesses are reads, hence no data race for any interleaving and sequential results per goroutine")
+	c.RunJobs(jobs, 4)
+}
